@@ -223,8 +223,11 @@ def run_sequence_check(chk, prefix, what):
     rflag = rflag + sflag
     rn += sn
     chk.cov["control_field_sweep_records"] = sn
-    chk.cov["traces_validated_against_impl"] = n + rn
-    chk.cov["evaluations"] = n + rn
+    # the shipped command line tool: each subcommand as a process against a scripted terminal on a real TCP connection (L5, spec/cli)
+    import tool_common
+    ncli = tool_common.run_cli(chk, chk.pid, thorough)
+    chk.cov["traces_validated_against_impl"] = n + rn + ncli
+    chk.cov["evaluations"] = n + rn + ncli
     chk.cov["distinct_nontrivial"] = n
     chk.cov["replayed_model_cases"] = n
     chk.cov["random_exchanges"] = rn
@@ -232,7 +235,10 @@ def run_sequence_check(chk, prefix, what):
                        "truncated last frame) replayed against the real into_stream through a scripted peer; the observed event log (frames "
                        "written, frames consumed, items, end) and the bytes left on the connection must equal the model's. impl -> spec: seeded "
                        "random scripts of up to 40 frames with generated packet bodies and one injected fault in half of them, validated by TLC "
-                       "(TraceSequence). distinct_nontrivial = replayed model behaviours (distinct terminal states)" % (4 if thorough else 3))
+                       "(TraceSequence). The thirteen subcommands of zvt_cli run as processes against a scripted terminal on a loopback TCP "
+                       "connection for a stratified sample of MC_ZvtCli's runs (every script of up to 3 frames); the frames written are taken at "
+                       "the system call and judged by TLC (TraceCli). "
+                       "distinct_nontrivial = replayed model behaviours (distinct terminal states)" % (4 if thorough else 3))
     if cases:
         c = cases[len(cases) // 3]
         chk.sample({"cmd": c["cmd"], "script": [cc.hexs(f["bytes"]) for f in c["frames"]],
@@ -251,4 +257,5 @@ def run_sequence_check(chk, prefix, what):
             else:
                 chk.drift("L3-sequence", "%s %s" % (rec["cmd"], sorted(flags)), brief(rec))
     chk.assumptions += ["the peer queues the script up front (eager); frames written by the code are recognised by APDU framing only",
-                        "request values are obtained by decoding reference-encoded typical values with the real decoder"]
+                        "request values are obtained by decoding reference-encoded typical values with the real decoder",
+                        "zvt_cli runs: strace reports the tool's writes faithfully"]
